@@ -189,7 +189,8 @@ def dfs(factory_spec, cfg, bound, prefix=(), max_steps=400, cap=None, recurse=Tr
         for v in x.violations:
             if len(st.violations) < max_violations:
                 st.violations.append({"oracle": v.oracle, "signature": v.signature, "message": v.message,
-                                      "cfg": cfg, "labels": list(x.labels), "harness": factory_spec})
+                                      "cfg": cfg, "labels": list(x.labels), "harness": factory_spec,
+                                      "max_steps": max_steps})
         # children: deviate at every point after the prefix
         f = s = 0
         # a run that did not terminate is reported by the harness; do not fan out over its (cyclic) tail
